@@ -314,13 +314,23 @@ def check_local_params(ctx, f, lp):
                     problems.append('collision path lacks %s' % miss)
                 elif not (txt.index('kl.renameSIdRefs(oldid,newid)') < txt.index('pid=newid')):
                     problems.append('value stored before the rename')
-            if 'allparams[pid]=0.0' not in txt:
+            # what the path leaves in allparams for this parameter: its value attribute if that is finite, else 0.0 - under the (new) id
+            nodes = [e.node for e in p.stmts()]
+            sts = [i_ for i_, nd in enumerate(nodes) if isinstance(nd, ast.Assign) and isinstance(nd.targets[0], ast.Subscript)
+                   and src(nd.targets[0].value) == 'allparams']
+            tests = {util.canon_test(e.node).replace(' ', ''): e.info for e in p.events if e.kind == 'test'}
+            fin = [t_ for t_ in tests if 'isfinite(%s.getValue())' % pv in t_]
+            finite = bool(fin) and tests[fin[0]] == (not fin[0].startswith('not'))
+            if not sts or src(nodes[sts[-1]].targets[0].slice) != 'pid':
                 problems.append('local parameter not registered')
-            elif collide and ('pid=newid' not in txt or txt.index('allparams[pid]=0.0') < txt.index('pid=newid')):
-                problems.append('value stored under the old id')
-            fin = [e for e in p.events if e.kind == 'test' and src(e.node).replace(' ', '') == 'np.isfinite(%s.getValue())' % pv]
-            if fin and fin[0].info and 'allparams[pid]=%s.getValue()' % pv not in txt:
-                problems.append('a finite local value is not stored')
+            else:
+                last = src(nodes[sts[-1]].value).replace(' ', '')
+                if collide and ('pid=newid' not in txt or any(i_ < txt.index('pid=newid') for i_ in sts)):
+                    problems.append('value stored under the old id')
+                if finite and last != '%s.getValue()' % pv:
+                    problems.append('a finite local value is not stored')
+                if not finite and last not in ('0.0', '0'):
+                    problems.append('a non-finite local value is stored as %s' % last)
         # the renaming happens whenever the id is already taken - by a global or by another reaction's local - whatever the values are
         ren = [n for n in ast.walk(pl) if isinstance(n, ast.Call) and src(n.func) == 'kl.renameSIdRefs']
         for c in ren:
@@ -391,9 +401,9 @@ def check_species(ctx):
     skips = [s_ for s_ in lp.body if isinstance(s_, ast.If) and any(isinstance(x, ast.Continue) for x in ast.walk(s_))]
     body = [s_ for s_ in lp.body if s_ not in skips]
     for sk in skips:
-        lits = sorted(n.value for n in ast.walk(sk.test) if isinstance(n, ast.Constant) and isinstance(n.value, str))
         names = {n.id for n in ast.walk(sk.test) if isinstance(n, ast.Name)}
-        if not (lits == ['t', 'volume'] and len(names) == 1 and not sk.orelse and isinstance(sk.test, ast.BoolOp) and isinstance(sk.test.op, ast.Or)):
+        lits = util.eq_literals(sk.test, sorted(names)[0]) if len(names) == 1 else None
+        if not (lits is not None and sorted(lits) == ['t', 'volume'] and not sk.orelse):
             problems.append('species are skipped under the condition `%s` (only the keywords volume / t may be skipped)' % src(sk.test))
     for n in ast.walk(lp):
         if isinstance(n, (ast.Continue, ast.Break)) and not any(n in ast.walk(sk) for sk in skips):
@@ -492,6 +502,101 @@ def check_parameter_values(ctx, rule='R13.5-initial-values'):
            '; '.join(sorted(set(problems))[:3]))
 
 
+class Obj(dict):
+    """a sample libsbml object: method name -> value, or a function of the evaluated arguments"""
+
+
+def check_sample_documents(ctx):
+    """import_sbml_reactions evaluated (templates.StrExec; helpers of the module are followed) on small sample documents without
+    annotations: the reaction tuple must carry the stoichiometry-expanded species lists and a rate that is the document's kinetic law."""
+    import sympy as sp
+    from ..templates import StrExec, Hole, UNKNOWN
+    from . import c12
+    f = func(ctx, 'import_sbml_reactions')
+    where = ctx.loc('sbmlutil', f)
+    funcs = c12._module_funcs(ctx)
+    samples = {
+        'order-differs-from-stoichiometry': ([('A', 2), ('B', 1)], [('C', 1)], 'k1*A*B'),
+        'saturating-law': ([('A', 1)], [('A', 1), ('B', 3)], 'k1*A/(K+A)'),
+        'plain-mass-action': ([('A', 1), ('B', 1)], [('C', 2)], 'k1*A*B'),
+    }
+    for label, (reac, prod, law) in samples.items():
+        species = {'A': 1.0, 'B': 2.0, 'C': 0.0}
+        params = {'k1': 2.0, 'K': 5.0}
+
+        def ref(sid, st):
+            return Obj(getSpecies=sid, getStoichiometry=float(st), getId=Hole('REF'), isSetStoichiometry=True, getConstant=True)
+        kl = Obj(getListOfParameters=[], getListOfLocalParameters=[], getMath=Hole('MATH'), getFormula=law, getNumParameters=0, getNumLocalParameters=0)
+        reaction = Obj(getKineticLaw=kl, getListOfReactants=[ref(*r) for r in reac], getListOfProducts=[ref(*r) for r in prod], getListOfModifiers=[],
+                       getAnnotationString='', getId='r0', getReversible=False, isSetKineticLaw=True, getListOfAllElements=[],
+                       getNumReactants=len(reac), getNumProducts=len(prod))
+        model = Obj(getListOfReactions=[reaction], getSpecies=lambda a: Obj(getId=a[0], getName=a[0]) if a and isinstance(a[0], str) else None,
+                    getNumReactions=1)
+
+        def hook(n, ex):
+            if isinstance(n.func, ast.Attribute):
+                recv = ex.ev(n.func.value)
+                if isinstance(recv, Obj):
+                    if n.func.attr not in recv:
+                        return None
+                    v = recv[n.func.attr]
+                    return v([ex.ev(a) for a in n.args]) if callable(v) else v
+                nm = src(n.func)
+                if nm.endswith('formulaToL3String') or nm.endswith('formulaToString'):
+                    return law
+                if nm.endswith('.isfinite') and len(n.args) == 1:
+                    v = ex.ev(n.args[0])
+                    return True if isinstance(v, (int, float)) else None
+                if nm.startswith('warnings.'):
+                    return 0
+            return None
+        pn = [a.arg for a in f.args.args]
+        env = {pn[0]: model, pn[1]: dict(species), pn[2]: dict(params)}
+        for nm in pn[3:]:
+            env[nm] = False
+        ex = c12._reader_exec(funcs, hook, env, set(pn[3:]) | {pn[0]})
+        ex.local_names = c12.assigned_names(f.body) - set(pn)
+        ex.run(f.body)
+        r = ex.returned
+        problems = []
+        if ex.aborted:
+            problems.append('the importer %s' % ex.aborted)
+        elif not (isinstance(r, list) and r and isinstance(r[0], list) and len(r[0]) == 1 and isinstance(r[0][0], list) and len(r[0][0]) >= 4):
+            raise AnalysisError('import_sbml_reactions: the reaction tuple for the sample document %s could not be evaluated (%r)' % (label, r))
+        else:
+            rx = r[0][0]
+            want_r = [sid for sid, st in reac for _ in range(st)]
+            want_p = [sid for sid, st in prod for _ in range(st)]
+            if any(v is UNKNOWN for v in rx[:3]) or not isinstance(rx[3], dict) or any(v is UNKNOWN for v in rx[3].values()):
+                raise AnalysisError('import_sbml_reactions: the reaction tuple for the sample document %s could not be evaluated (%r)' % (label, rx))
+            if rx[0] != want_r or rx[1] != want_p:
+                problems.append('reactants %r / products %r, the document says %r / %r' % (rx[0], rx[1], want_r, want_p))
+            loc = {nm: sp.Symbol(nm, positive=True) for nm in list(species) + list(params)}
+            want = sp.sympify(law, locals=loc)
+            if rx[2] == 'general' and rx[3].get('type') == 'general':
+                try:
+                    got = sp.sympify(str(rx[3].get('rate')).replace('^', '**'), locals=loc)
+                except Exception:
+                    got = None
+            elif rx[2] == 'massaction' and rx[3].get('type') == 'massaction' and str(rx[3].get('k')) in params:
+                # Model.create_reaction fills the species of a mass action propensity from the reactants unless they are given
+                sp_list = rx[3]['species'].split('*') if isinstance(rx[3].get('species'), str) else rx[0]
+                got = loc[str(rx[3]['k'])]
+                for sid in sp_list:
+                    got = got * loc.get(sid.strip(), sp.Symbol(sid.strip()))
+            else:
+                raise AnalysisError('import_sbml_reactions: an un-annotated reaction becomes a %r propensity %r - its rate is not decided by this rule' % (rx[2], rx[3]))
+            if got is None or sp.simplify(got - want) != 0:
+                problems.append("kinetic law %s is imported as a '%s' propensity with rate %s" % (law, rx[2], got))
+            if len(rx) == 8 and any(v is UNKNOWN for v in rx[4:]):
+                raise AnalysisError('import_sbml_reactions: the delay fields for the sample document %s could not be evaluated (%r)' % (label, rx[4:]))
+            if len(rx) == 8 and any(v is not None for v in rx[4:]):
+                problems.append('a delay %r appears from nowhere' % (rx[4:],))
+        ctx.ob('R13.7-sample-document', label, not problems, where,
+               'the importer, evaluated on a sample document (reactants %s, products %s, kinetic law %s), returns the expanded species lists and a '
+               'propensity whose rate is that law' % (reac, prod, law), '; '.join(problems))
+
+
 def check_assembly(ctx):
     f = func(ctx, 'import_sbml')
     txt = [util.stmt_key(s).replace(' ', '') for s in ast.walk(f) if isinstance(s, ast.stmt)]
@@ -520,6 +625,16 @@ def check(ctx):
     check_local_params(ctx, f2, lp2)
     check_species(ctx)
     check_assembly(ctx)
+    try:
+        check_sample_documents(ctx)
+        ctx.floor('R13.7-sample-document', 3)
+    except AnalysisError as e:
+        # the evaluation could not be carried through.  If the other rules already report violations those are what the run reports;
+        # otherwise the run fails closed.
+        if not any(not o.ok for o in ctx.obs):
+            raise
+        ctx.note('R13.7-sample-document not decided: %s' % e)
+        ctx.floors.pop('R13.7-sample-document', None)
     ctx.floor('R13.1-no-leak', 10)
     ctx.floor('R13.2-rule-translation', 2)
     ctx.floor('R13.3-stoichiometry', 3)
